@@ -108,7 +108,9 @@ func ReadRequest(r *bufio.Reader) (*Request, error) {
 	if cl > 0 {
 		// 读取 n 字节的字串Body
 		body := make([]byte, cl)
-		_, err = io.ReadFull(r, body)
+		if _, err = io.ReadFull(r, body); err != nil {
+			return nil, err
+		}
 		req.Body = string(body)
 	}
 	return req, nil
